@@ -393,17 +393,24 @@ theorem withExt_marked_plain (b : Str) (hb : splitExt b = some (b, none)) (n m :
     (Or.inr (partExt_ne_nil n))
   rw [withExt_other m hs (partExt_not_pna n), withExtension_plain _ _ hb]
 
+theorem splitExt_marked_pna (b e : Str) (he : e.map lower = ['p', 'n', 'a'])
+    (n : Nat) :
+    splitExt (b ++ '.' :: (partExt n ++ '.' :: e)) = some (b ++ '.' :: partExt n, some e) := by
+  rw [show b ++ '.' :: (partExt n ++ '.' :: e) = (b ++ '.' :: partExt n) ++ '.' :: e by simp]
+  exact splitExt_append_dot (b ++ '.' :: partExt n) e (by simp) (dot_not_mem_of_pna he)
+    (Or.inr (pna_ne_nil he))
+
+theorem splitExt_marked (b : Str) (hb : b ≠ []) (n : Nat) :
+    splitExt (b ++ '.' :: partExt n) = some (b, some (partExt n)) :=
+  splitExt_append_dot b (partExt n) hb (dot_not_mem_partExt n) (Or.inr (partExt_ne_nil n))
+
 /-- a part name of an archive: `b.partN.pna` -/
 theorem withExt_marked_pna (b e : Str) (hb : b ≠ []) (he : e.map lower = ['p', 'n', 'a'])
     (n m : Nat) :
     withExt (b ++ '.' :: (partExt n ++ '.' :: e)) m
-      = some (b ++ '.' :: (partExt m ++ '.' :: e)) := by
-  have hs1 := splitExt_append_dot b (partExt n) hb (dot_not_mem_partExt n)
-    (Or.inr (partExt_ne_nil n))
-  have hs := splitExt_append_dot (b ++ '.' :: partExt n) e (by simp) (dot_not_mem_of_pna he)
-    (Or.inr (pna_ne_nil he))
-  simp only [List.append_assoc, List.cons_append] at hs
-  exact withExt_pna_numbered m hs he hs1 (isPartMarker_partExt n)
+      = some (b ++ '.' :: (partExt m ++ '.' :: e)) :=
+  withExt_pna_numbered m (splitExt_marked_pna b e he n) he (splitExt_marked b hb n)
+    (isPartMarker_partExt n)
 
 -- ---------------------------------------------------------------- the shape of `withExt` output
 
@@ -452,23 +459,10 @@ theorem withExt_shape {name : Str} (hg : Good name) (hs : splitExt name ≠ none
             refine ⟨s2, hg.2, fun n => ?_⟩
             rw [withExt_other n h he, h2name, withExtension_ext s2 e2 _ h2ne hg.1 h2d]
 
-theorem withExt_isSome_iff (name : Str) (n : Nat) :
-    (withExt name n).isSome ↔ splitExt name ≠ none := by
-  unfold withExt
-  split
-  · rename_i h; simp [h]
-  · rename_i h; simp [h]
-  · rename_i stem e h
-    simp only [h]
-    split
-    · split
-      · have : stem ≠ [] := (splitExt_some_ext h).2.1
-        split
-        · simp
-        · rename_i hm _ hs2
-          simp [hs2] at hm
-      · simp
-    · simp
+theorem splitExt_ne_none_of_withExt {name w : Str} {n : Nat} (h : withExt name n = some w) :
+    splitExt name ≠ none := by
+  intro hs
+  simp [withExt, hs] at h
 
 -- ---------------------------------------------------------------- `Good` is necessary
 
@@ -570,51 +564,73 @@ theorem removeExt_marked_plain (b : Str) (hb : b ≠ []) (n : Nat) :
 theorem removeExt_marked_pna (b e : Str) (hb : b ≠ []) (hb' : b ≠ ['.'])
     (he : e.map lower = ['p', 'n', 'a']) (n : Nat) :
     removeExt (b ++ '.' :: (partExt n ++ '.' :: e)) = some (b ++ '.' :: e) := by
-  have hs1 := splitExt_append_dot b (partExt n) hb (dot_not_mem_partExt n)
-    (Or.inr (partExt_ne_nil n))
-  have hs := splitExt_append_dot (b ++ '.' :: partExt n) e (by simp) (dot_not_mem_of_pna he)
-    (Or.inr (pna_ne_nil he))
-  simp only [List.append_assoc, List.cons_append] at hs
+  have hs1 := splitExt_marked b hb n
+  have hs := splitExt_marked_pna b e he n
   have hw := withExtension_ext b (partExt n) e hb hb' (dot_not_mem_partExt n)
-  simp only [removeExt, hs, partPrefix_not_prefix_of_pna he, hs1, partPrefix_isPrefixOf_partExt,
-    if_true, hw]
+  have hp := partPrefix_not_prefix_of_pna he
+  have hq := partPrefix_isPrefixOf_partExt n
+  unfold removeExt
+  rw [hs]
+  simp only [hp, hs1, hq, if_true, hw]
   simp
 
 -- ---------------------------------------------------------------- no '/' is introduced
 
+theorem mem_withExt {name w : Str} {n : Nat} {c : Char} (h : withExt name n = some w)
+    (hc : c ∈ w) : c ∈ name ∨ c = '.' ∨ c ∈ partExt n := by
+  cases hs : splitExt name with
+  | none => exact absurd hs (splitExt_ne_none_of_withExt h)
+  | some p =>
+    obtain ⟨stem, x⟩ := p
+    cases x with
+    | none =>
+      have := splitExt_some_none hs
+      subst this
+      rw [withExt_plain _ n hs] at h
+      cases h
+      simpa using hc
+    | some e =>
+      have hname := (splitExt_some_ext hs).1
+      have hstem : ∀ c ∈ stem, c ∈ name := fun c hc => mem_of_splitExt_stem hs hc
+      have he : ∀ c ∈ e, c ∈ name := fun c hc => by rw [hname]; simp [hc]
+      by_cases hp : e.map lower = ['p', 'n', 'a']
+      · by_cases hm : Numbered stem
+        · unfold Numbered at hm
+          split at hm
+          · rename_i base e2 hs2
+            rw [withExt_pna_numbered n hs hp hs2 hm] at h
+            cases h
+            simp only [List.mem_append, List.mem_cons] at hc
+            rcases hc with hc | hc | hc | hc | hc
+            · exact Or.inl (hstem _ (mem_of_splitExt_stem hs2 hc))
+            · exact Or.inr (Or.inl hc)
+            · exact Or.inr (Or.inr (List.mem_append.mpr hc))
+            · exact Or.inr (Or.inl hc)
+            · exact Or.inl (he _ hc)
+          · exact hm.elim
+        · rw [withExt_pna_unnumbered n hs hp hm] at h
+          cases h
+          simp only [List.mem_append, List.mem_cons] at hc
+          rcases hc with hc | hc | hc | hc | hc
+          · exact Or.inl (hstem _ hc)
+          · exact Or.inr (Or.inl hc)
+          · exact Or.inr (Or.inr (List.mem_append.mpr hc))
+          · exact Or.inr (Or.inl hc)
+          · exact Or.inl (he _ hc)
+      · rw [withExt_other n hs hp] at h
+        cases h
+        rcases mem_withExtension hc with hc | hc | hc
+        · exact Or.inl (hstem _ hc)
+        · exact Or.inr (Or.inl hc)
+        · exact Or.inr (Or.inr hc)
+
 theorem slash_not_mem_withExt {name w : Str} {n : Nat} (hn : '/' ∉ name)
     (h : withExt name n = some w) : '/' ∉ w := by
-  have hwe : ∀ s : Str, (∀ c ∈ s, c ∈ name) → '/' ∉ withExtension s (partExt n) := by
-    intro s hs hc
-    rcases mem_withExtension hc with h1 | h1 | h1
-    · exact hn (hs _ h1)
-    · revert h1; decide
-    · exact slash_not_mem_partExt n h1
-  unfold withExt at h
-  split at h
-  · cases h
-  · rename_i stem hs
-    cases h
-    exact hwe _ (fun c hc => mem_of_splitExt_stem hs hc)
-  · rename_i stem e hs
-    have hse := (splitExt_some_ext hs).1
-    have hstem : ∀ c ∈ stem, c ∈ name := fun c hc => mem_of_splitExt_stem hs hc
-    have he : '/' ∉ e := fun hc => hn (by rw [hse]; simp [hc])
-    have hp := slash_not_mem_partExt n
-    have hp' : '/' ∉ decimal n := fun hc => hp (by simp [partExt, hc])
-    split at h
-    · split at h
-      · split at h
-        · rename_i base x hs2
-          cases h
-          have hb : '/' ∉ base := fun hc => hn (hstem _ (mem_of_splitExt_stem hs2 hc))
-          simp [partPrefix, hb, he, hp']
-        · cases h
-      · cases h
-        have hb : '/' ∉ stem := fun hc => hn (hstem _ hc)
-        simp [partPrefix, hb, he, hp']
-    · cases h
-      exact hwe _ hstem
+  intro hc
+  rcases mem_withExt h hc with h1 | h1 | h1
+  · exact hn h1
+  · revert h1; decide
+  · exact slash_not_mem_partExt n h1
 
 -- ---------------------------------------------------------------- splitPath
 
